@@ -11092,6 +11092,55 @@ impl SctpTransport {
 
 #[cfg(rustrtc_verif)]
 impl SctpTransport {
+    /// H2: the PR-SCTP sender bookkeeping as a function. Loads `sent` (records whose TSN is in
+    /// `expired` get a lifetime that has already run out), the advanced peer ack point and the
+    /// peer's cumulative ack, runs `update_advanced_peer_ack_point` and returns
+    /// (advanced_peer_ack_tsn, forward_tsn_pending, forward_tsn_streams, flight_size,
+    /// the FORWARD-TSN chunk `create_forward_tsn_chunk` would build now).
+    pub fn verif_pr_advance(
+        &self,
+        sent: &[verif::VRecord],
+        expired: &[u32],
+        advanced: u32,
+        peer_cumulative_ack: u32,
+    ) -> (u32, bool, Vec<(u16, u16)>, usize, Option<Bytes>) {
+        let i = &self.inner;
+        let base = i.stats_created_time - Duration::from_secs(100);
+        let mut flight = 0usize;
+        {
+            let mut q = i.sent_queue.lock();
+            q.clear();
+            for r in sent {
+                let mut rec = r.to_record(base);
+                if expired.contains(&r.tsn) && rec.expiry.is_some() {
+                    rec.expiry = Some(base);
+                }
+                if rec.in_flight {
+                    flight += rec.payload.len();
+                }
+                q.insert(r.tsn, rec);
+            }
+        }
+        i.flight_size.store(flight, Ordering::SeqCst);
+        i.has_pr_sctp.store(true, Ordering::SeqCst);
+        i.advanced_peer_ack_tsn.store(advanced, Ordering::SeqCst);
+        i.peer_cumulative_ack
+            .store(peer_cumulative_ack, Ordering::SeqCst);
+        i.forward_tsn_pending.store(false, Ordering::SeqCst);
+        i.forward_tsn_streams.lock().clear();
+        i.update_advanced_peer_ack_point();
+        (
+            i.advanced_peer_ack_tsn.load(Ordering::SeqCst),
+            i.forward_tsn_pending.load(Ordering::SeqCst),
+            i.forward_tsn_streams.lock().clone(),
+            i.flight_size.load(Ordering::SeqCst),
+            i.create_forward_tsn_chunk(),
+        )
+    }
+}
+
+#[cfg(rustrtc_verif)]
+impl SctpTransport {
     /// H2: the SACK history the sender remembers (highest cumulative TSN seen, signature of the
     /// last SACK), so that `handle_sack` can be run as a function on a loaded sender state.
     pub fn verif_set_sack_history(&self, peer_cumulative_ack: u32, last_sack_sig: u64) {
